@@ -200,6 +200,8 @@ def main(ctx):
             hs = hist if (ctx.quick and n in (2, 3, 5)) or not ctx.quick else hist[:: 3]
             for k in range(0, len(hs), 12):
                 cells.append({"kind": "rr", "cfg": {"lineup": lineup, "seed": S, "dims": 2, "model": "const2", "ensemble": 1}, "histories": hs[k:k + 12]})
+    eight = [{"cls": NAMES6[i % 6], "bs": 1 + i % 3} for i in range(8)]
+    cells.append({"kind": "rr", "cfg": {"lineup": eight, "seed": S, "dims": 2, "model": "const2", "ensemble": 1}, "histories": [["c2"] * 10, ["c1", "c2", "r", "c2", "c2", "r", "c1", "c2", "c2", "c2", "r", "c2", "c2"], ["c2", "c2", "c2", "r"] + ["c1"] * 11]})
     shapes = [[1], [2], [3], [1, 2], [2, 2]] if ctx.quick else [[1], [2], [3], [1, 1], [1, 2], [2, 1], [2, 2], [3, 3], [1, 1, 2]]
     for samplers in ("with_halton", "halton_first", "without_halton", "three"):
         nact = 2 if samplers in ("with_halton", "halton_first") else 3
